@@ -1988,10 +1988,378 @@ Qed.
 Lemma ms_of_round d : 0 <= d < dmax -> d <= 1000 * ms_of true d < d + 1000 /\ ms_of false d = d.
 Proof. intros H. split; [apply ms_of_ceil; exact H|apply ms_of_plain; exact H]. Qed.
 
+(* ---------- no ReadyErr event, no readiness failure ---------- *)
+Definition clean (x : call) : Prop := (forall k, rerr x k = false) /\ rfl x = [].
+
+Lemma finish_rr i now y k n o :
+  rerr (finish i now y k n o) = rerr y /\ rfl (finish i now y k n o) = rfl y.
+Proof.
+  unfold finish. destruct (ph y); try (split; reflexivity); destruct o; try (split; reflexivity);
+    destruct (closed y); split; reflexivity.
+Qed.
+
+Lemma call_inner_rr i now y k :
+  rerr (call_inner i now y k) = rerr y /\ rfl (call_inner i now y k) = rfl y.
+Proof.
+  unfold call_inner. destruct (gate y (length (starts y))); [|split; reflexivity].
+  match goal with |- context [finish i now ?z ?a ?b ?c] => destruct (finish_rr i now z a b c) as [E1 E2] end.
+  rewrite E1, E2. split; reflexivity.
+Qed.
+
+Lemma launch_task_clean i now y : clean y -> clean (launch_task i now y).
+Proof.
+  intros [C1 C2]. unfold launch_task. rewrite C1, andb_false_r.
+  destruct (Nat.eqb (length (launch y)) 0 || rdy y (length (launch y))).
+  - match goal with |- context [call_inner i now ?z ?a] => destruct (call_inner_rr i now z a) as [E1 E2] end.
+    unfold clean. rewrite E1, E2. split; [exact C1|exact C2].
+  - split; [exact C1|exact C2].
+Qed.
+
+Lemma run_tasks_clean i now n : forall y, clean y -> clean (run_tasks i now n y).
+Proof.
+  induction n as [|n IH]; intros y C; cbn [run_tasks]; [exact C|]. apply IH. apply launch_task_clean. exact C.
+Qed.
+
+Lemma poll_body_rr c now y :
+  rerr (fst (fst (poll_body c now y))) = rerr y /\ rfl (fst (fst (poll_body c now y))) = rfl y.
+Proof.
+  assert (HL : forall z, rerr (fst (fst (poll_latency c now z))) = rerr z /\ rfl (fst (fst (poll_latency c now z))) = rfl z).
+  { intros z. unfold poll_latency. destruct (consume_lat (maxa c) (queue z) (cons z) (errs z) (perr z)).
+    - split; reflexivity.
+    - destruct (fire c now (maxa c) (sp z) (dline z)). split; reflexivity. }
+  assert (HD : forall z, rerr (fst (fst (poll_drain now z))) = rerr z /\ rfl (fst (fst (poll_drain now z))) = rfl z).
+  { intros z. unfold poll_drain. destruct (consume_drain (queue z) (cons z) (errs z) (perr z)).
+    - split; reflexivity.
+    - destruct (closed z); [destruct pe|]; split; reflexivity. }
+  assert (HB : rerr (begin c now y) = rerr y /\ rfl (begin c now y) = rfl y).
+  { unfold begin. destruct (1 <? maxa c)%nat; [destruct (latency_mode c)|]; split; reflexivity. }
+  unfold poll_body. destruct (ph y).
+  - destruct HB as [B1 B2]. destruct (ph (begin c now y)).
+    all: try (destruct (HD (begin c now y)) as [E1 E2]; rewrite E1, E2, B1, B2; split; reflexivity).
+    destruct (HL (begin c now y)) as [E1 E2]. rewrite E1, E2, B1, B2. split; reflexivity.
+  - apply HL.
+  - apply HD.
+  - split; reflexivity.
+  - split; reflexivity.
+Qed.
+
+Lemma poll_call_clean c i now y : clean y -> clean (fst (fst (poll_call c i now y))).
+Proof.
+  intros C. unfold poll_call. pose proof (poll_body_rr c now y) as [E1 E2].
+  destruct (poll_body c now y) as [[x1 r0] v0]. cbn [fst] in *.
+  apply run_tasks_clean. destruct C as [C1 C2]. split; [rewrite E1; exact C1|rewrite E2; exact C2].
+Qed.
+
+Lemma complete_call_clean i now y n o : clean y -> clean (complete_call i now y n o).
+Proof.
+  intros [C1 C2]. unfold complete_call. destruct (gate y n); [split; assumption|].
+  destruct (nth_error (starts y) n) as [[k s0]|]; [|split; assumption].
+  match goal with |- context [finish i now ?z ?a ?b ?c] => destruct (finish_rr i now z a b c) as [E1 E2] end.
+  unfold clean. rewrite E1, E2. split; assumption.
+Qed.
+
+Lemma ready_call_clean i now y k : clean y -> clean (ready_call i now y k).
+Proof.
+  intros [C1 C2]. unfold ready_call. destruct (rdy y k); [split; assumption|].
+  destruct (mem k (waiting y)); [|split; assumption].
+  match goal with |- context [call_inner i now ?z ?a] => destruct (call_inner_rr i now z a) as [E1 E2] end.
+  unfold clean. rewrite E1, E2. split; assumption.
+Qed.
+
+Lemma drop_call_clean y : clean y -> clean (drop_call y).
+Proof. intros [C1 C2]. unfold drop_call. destruct (ph y); split; assumption. Qed.
+
+Lemma step_clean c s e : (forall j k, e <> ReadyErr j k) ->
+  (forall j, clean (calls s j)) -> forall j, clean (calls (step_st c s e) j).
+Proof.
+  intros He C j. unfold step_st, step. destruct e as [i|i|d|i n o|i k|i k].
+  - pose proof (poll_call_clean c i (now s) (calls s i) (C i)) as B.
+    destruct (poll_call c i (now s) (calls s i)) as [[x r0] v0]. cbn [fst now calls] in *.
+    destruct (Nat.eq_dec j i) as [->|Hne]; [rewrite upd_same; exact B|rewrite upd_other by exact Hne; apply C].
+  - cbn [fst calls]. destruct (Nat.eq_dec j i) as [->|Hne];
+      [rewrite upd_same; apply drop_call_clean; apply C|rewrite upd_other by exact Hne; apply C].
+  - cbn [fst calls]. apply (C j).
+  - cbn [fst calls]. destruct (Nat.eq_dec j i) as [->|Hne];
+      [rewrite upd_same; apply complete_call_clean; apply C|rewrite upd_other by exact Hne; apply C].
+  - cbn [fst calls]. destruct (Nat.eq_dec j i) as [->|Hne];
+      [rewrite upd_same; apply ready_call_clean; apply C|rewrite upd_other by exact Hne; apply C].
+  - exfalso. apply (He i k). reflexivity.
+Qed.
+
+(* without a ReadyErr event no attempt ever fails readiness: rfl stays empty, and the statements
+   that mention rfl read as the property does ("every attempt it can start has been started") *)
+Lemma no_readyerr_no_rfl c evs i : (1 <= maxa c)%nat ->
+  (forall j k, ~ In (ReadyErr j k) evs) ->
+  Forall (fun s => rfl (calls s i) = []) (states (step_st c) (init c) evs).
+Proof.
+  intros _ Hno.
+  assert (G : forall evs s, (forall j k, ~ In (ReadyErr j k) evs) -> (forall j, clean (calls s j)) ->
+              Forall (fun s => rfl (calls s i) = []) (states (step_st c) s evs)).
+  { clear evs Hno. induction evs as [|e t IH]; intros s Hno C; cbn [states].
+    - constructor; [apply (C i)|constructor].
+    - constructor; [apply (C i)|]. apply IH.
+      + intros j k Hin. apply (Hno j k). right. exact Hin.
+      + apply step_clean; [|exact C]. intros j k ->. apply (Hno j k). left. reflexivity. }
+  apply G; [exact Hno|]. intros j. cbn. split; reflexivity.
+Qed.
+
+(* ---------- positive delays: one launch per step at most ---------- *)
+Definition pos_delays (c : cfg) : Prop := forall k, (1 <= k)%nat -> 1 <= delay c k.
+
+Lemma pos_delays_fixed c d : dcfg c = Fixed d -> 1 <= d -> pos_delays c.
+Proof. intros E Hd k _. unfold delay. rewrite E. lia. Qed.
+
+Lemma pos_delays_latency c : pos_delays c -> latency_mode c = true.
+Proof.
+  intros H. specialize (H 1%nat ltac:(lia)). unfold delay in H. unfold latency_mode.
+  destruct (dcfg c); [apply Z.ltb_lt; lia|lia|reflexivity].
+Qed.
+
+Lemma poll_call_one_launch c i now x : (1 <= maxa c)%nat -> pos_delays c -> Cfull c i now 0 x ->
+  (length (launch (fst (fst (poll_call c i now x)))) <= S (length (launch x)))%nat.
+Proof.
+  intros Hm Hpos (B & _).
+  pose proof (a_len _ _ _ _ _ _ B) as L. rewrite Nat.add_0_r in L.
+  pose proof (pos_delays_latency c Hpos) as Lat.
+  assert (HL : forall z, (sp z <= maxa c)%nat ->
+             (length (launch z) = sp z \/ (length (launch z) = 0%nat /\ sp z = 1%nat /\ now < dline z)) ->
+             let z1 := fst (fst (poll_latency c now z)) in
+             (length (launch z1) + (sp z1 - length (launch z1)) <= S (length (launch z)))%nat).
+  { intros z Hz Hl. unfold poll_latency.
+    destruct (consume_lat (maxa c) (queue z) (cons z) (errs z) (perr z)).
+    - unfold resolve. cbn [fst launch sp]. destruct Hl as [Hl|(Hl & Hs & _)]; lia.
+    - pose proof (fire_spec c now (maxa c) (sp z) (dline z) ltac:(lia)) as F.
+      destruct (fire c now (maxa c) (sp z) (dline z)) as [s' dl']. cbn [fst sp launch].
+      destruct F as (F1 & F2 & F3 & F4).
+      assert (s' <= S (sp z))%nat.
+      { destruct (Nat.le_gt_cases s' (S (sp z))) as [G|G]; [exact G|exfalso].
+        destruct (F4 ltac:(lia)) as (_ & F5 & _). specialize (F5 (S (sp z)) ltac:(lia)).
+        specialize (Hpos (S (sp z)) ltac:(lia)). lia. }
+      destruct Hl as [Hl|(Hl & Hs & Hd)]; [lia|].
+      destruct (Nat.eq_dec s' (sp z)) as [E|E]; [lia|].
+      destruct (F4 ltac:(lia)) as (F6 & _). lia. }
+  unfold poll_call.
+  destruct (poll_body c now x) as [[x1 r0] v0] eqn:PB. cbn [fst].
+  rewrite run_tasks_launch, app_length, repeat_length.
+  unfold poll_body in PB. destruct (ph x) eqn:P.
+  - destruct (a_created _ _ _ _ _ _ B P) as (E1 & _).
+    assert (El : length (launch x) = 0%nat) by lia.
+    unfold begin in PB. rewrite Lat in PB.
+    destruct (1 <? maxa c)%nat eqn:M.
+    + cbn [ph] in PB. apply Nat.ltb_lt in M.
+      match type of PB with poll_latency c now ?z = _ =>
+        pose proof (HL z ltac:(cbn; lia)
+                       ltac:(right; cbn [launch sp dline]; split; [exact El|split; [reflexivity|specialize (Hpos 1%nat ltac:(lia)); lia]])) as Q;
+        rewrite PB in Q end.
+      cbn [fst launch] in Q. lia.
+    + cbn [ph] in PB. unfold poll_drain in PB. cbn [queue cons errs perr] in PB.
+      destruct (consume_drain (queue x) (cons x) 0 None); [injection PB as <- _ _; unfold resolve; cbn [launch sp]; lia|].
+      match type of PB with (if ?b then _ else _) = _ => destruct b end;
+        [destruct pe|]; injection PB as <- _ _; unfold resolve; cbn [launch sp]; lia.
+  - pose proof (HL x (a_max _ _ _ _ _ _ B) ltac:(left; exact L)) as Q.
+    rewrite PB in Q. cbn [fst] in Q. exact Q.
+  - unfold poll_drain in PB.
+    destruct (consume_drain (queue x) (cons x) (errs x) (perr x)); [injection PB as <- _ _; unfold resolve; cbn [launch sp]; lia|].
+    destruct (closed x); [destruct pe|]; injection PB as <- _ _; unfold resolve; cbn [launch sp]; lia.
+  - injection PB as <- _ _. lia.
+  - injection PB as <- _ _. lia.
+Qed.
+
+Lemma step_one_launch c s e i : (1 <= maxa c)%nat -> pos_delays c -> Inv c s ->
+  (length (launch (calls (step_st c s e) i)) <= S (length (launch (calls s i))))%nat.
+Proof.
+  intros Hm Hpos H. unfold step_st, step. destruct e as [j|j|d|j n o|j k|j k].
+  - pose proof (poll_call_one_launch c j (now s) (calls s j) Hm Hpos (H j)) as B.
+    destruct (poll_call c j (now s) (calls s j)) as [[x r0] v0]. cbn [fst now calls] in *.
+    destruct (Nat.eq_dec i j) as [->|Hne]; [rewrite upd_same; exact B|rewrite upd_other by exact Hne; lia].
+  - cbn [fst calls]. destruct (Nat.eq_dec i j) as [->|Hne]; [rewrite upd_same|rewrite upd_other by exact Hne; lia].
+    unfold drop_call. destruct (ph (calls s j)); cbn; lia.
+  - cbn [fst calls]. unfold advance_call. cbn. lia.
+  - cbn [fst calls]. destruct (Nat.eq_dec i j) as [->|Hne]; [rewrite upd_same|rewrite upd_other by exact Hne; lia].
+    unfold complete_call. destruct (gate (calls s j) n); [lia|].
+    destruct (nth_error (starts (calls s j)) n) as [[k0 s0]|]; [|cbn; lia].
+    match goal with |- context [finish j (now s) ?z ?a ?b ?c0] => destruct (finish_frame j (now s) z a b c0) as (E & _) end.
+    rewrite E. cbn. lia.
+  - cbn [fst calls]. destruct (Nat.eq_dec i j) as [->|Hne]; [rewrite upd_same|rewrite upd_other by exact Hne; lia].
+    unfold ready_call. destruct (rdy (calls s j) k); [lia|]. destruct (mem k (waiting (calls s j))); [|cbn; lia].
+    match goal with |- context [call_inner j (now s) ?z ?a] => destruct (call_inner_frame j (now s) z a) as (E & _) end.
+    rewrite E. cbn. lia.
+  - cbn [fst calls]. destruct (Nat.eq_dec i j) as [->|Hne]; [rewrite upd_same|rewrite upd_other by exact Hne; lia].
+    unfold readyerr_call. destruct (rerr (calls s j) k); [lia|]. destruct (mem k (waiting (calls s j))); [|cbn; lia].
+    match goal with |- context [fail_ready j (now s) ?z ?a] => destruct (fail_ready_frame j (now s) z a) as (E & _) end.
+    rewrite E. cbn. lia.
+Qed.
+
+(* with positive delays (a fixed positive delay in particular) a script cannot launch more
+   attempts than it has events: a maximum above that number is never reached *)
+Lemma launches_le_events c evs i : (1 <= maxa c)%nat -> pos_delays c ->
+  (length (launch (calls (fold_left (step_st c) evs (init c)) i)) <= length evs)%nat.
+Proof.
+  intros Hm Hpos.
+  assert (G : forall evs s, Inv c s ->
+     (length (launch (calls (fold_left (step_st c) evs s) i)) <= length (launch (calls s i)) + length evs)%nat).
+  { clear evs. induction evs as [|e t IH]; intros s H; cbn [fold_left length]; [lia|].
+    specialize (IH (step_st c s e) (inv_step c s e Hm H)).
+    pose proof (step_one_launch c s e i Hm Hpos H). lia. }
+  specialize (G evs (init c) (inv_init c)). cbn in G. exact G.
+Qed.
+
+(* ---------- below the bound, the step function does not depend on max_hedged_attempts ---------- *)
+Definition st_eq (s1 s2 : st) : Prop := now s1 = now s2 /\ forall j, calls s1 j = calls s2 j.
+
+Lemma delay_same c1 c2 k : dcfg c1 = dcfg c2 -> delay c1 k = delay c2 k.
+Proof. intros E. unfold delay. rewrite E. reflexivity. Qed.
+
+Lemma pos_delays_same c1 c2 : dcfg c1 = dcfg c2 -> pos_delays c1 -> pos_delays c2.
+Proof. intros E H k Hk. rewrite <- (delay_same c1 c2 k E). apply H. exact Hk. Qed.
+
+Lemma consume_lat_irrel mx1 mx2 q : forall cs e pe,
+  (e + length q < mx1)%nat -> (e + length q < mx2)%nat ->
+  consume_lat mx1 q cs e pe = consume_lat mx2 q cs e pe.
+Proof.
+  induction q as [|[[k ok] v] q IH]; intros cs e pe H1 H2; cbn [consume_lat]; [reflexivity|].
+  destruct ok; [reflexivity|]. cbn [length] in H1, H2.
+  replace (mx1 <=? S e)%nat with false by (symmetry; apply Nat.leb_gt; lia).
+  replace (mx2 <=? S e)%nat with false by (symmetry; apply Nat.leb_gt; lia).
+  apply IH; lia.
+Qed.
+
+Lemma fire_pos c now fuel s dl : pos_delays c -> (S s < maxa c)%nat -> (2 <= fuel)%nat ->
+  fire c now fuel s dl = if dl <=? now then (S s, now + delay c (S s)) else (s, dl).
+Proof.
+  intros Hpos Hs Hf. destruct fuel as [|[|f]]; [lia|lia|]. cbn [fire].
+  replace (s <? maxa c)%nat with true by (symmetry; apply Nat.ltb_lt; lia).
+  replace (S s <? maxa c)%nat with true by (symmetry; apply Nat.ltb_lt; lia).
+  cbn [andb]. destruct (dl <=? now); [|reflexivity].
+  specialize (Hpos (S s) ltac:(lia)).
+  replace (now + delay c (S s) <=? now) with false by (symmetry; apply Z.leb_gt; lia).
+  reflexivity.
+Qed.
+
+Lemma poll_latency_irrel c1 c2 now x : dcfg c1 = dcfg c2 -> pos_delays c1 ->
+  (errs x + length (queue x) < maxa c1)%nat -> (errs x + length (queue x) < maxa c2)%nat ->
+  (S (sp x) < maxa c1)%nat -> (S (sp x) < maxa c2)%nat ->
+  poll_latency c1 now x = poll_latency c2 now x.
+Proof.
+  intros E Hpos Q1 Q2 S1 S2. unfold poll_latency.
+  rewrite (consume_lat_irrel (maxa c1) (maxa c2) (queue x) (cons x) (errs x) (perr x) Q1 Q2).
+  destruct (consume_lat (maxa c2) (queue x) (cons x) (errs x) (perr x)); [reflexivity|].
+  rewrite (fire_pos c1 now (maxa c1) (sp x) (dline x) Hpos S1 ltac:(lia)).
+  rewrite (fire_pos c2 now (maxa c2) (sp x) (dline x) (pos_delays_same c1 c2 E Hpos) S2 ltac:(lia)).
+  rewrite (delay_same c1 c2 (S (sp x)) E). reflexivity.
+Qed.
+
+Lemma poll_call_irrel c1 c2 i now x : dcfg c1 = dcfg c2 -> pos_delays c1 -> Cfull c1 i now 0 x ->
+  (length (launch x) + 2 < maxa c1)%nat -> (length (launch x) + 2 < maxa c2)%nat ->
+  poll_call c1 i now x = poll_call c2 i now x.
+Proof.
+  intros E Hpos (B & _) M1 M2.
+  pose proof (a_len _ _ _ _ _ _ B) as L. rewrite Nat.add_0_r in L.
+  assert (PB : poll_body c1 now x = poll_body c2 now x).
+  { unfold poll_body. destruct (ph x) eqn:P; try reflexivity.
+    - destruct (a_created _ _ _ _ _ _ B P) as (E1 & _ & E3 & _).
+      assert (Eb : begin c1 now x = begin c2 now x).
+      { unfold begin. rewrite (pos_delays_latency c1 Hpos), (pos_delays_latency c2 (pos_delays_same c1 c2 E Hpos)).
+        rewrite (delay_same c1 c2 1 E).
+        replace (1 <? maxa c1)%nat with true by (symmetry; apply Nat.ltb_lt; lia).
+        replace (1 <? maxa c2)%nat with true by (symmetry; apply Nat.ltb_lt; lia). reflexivity. }
+      rewrite <- Eb.
+      assert (Pb : ph (begin c1 now x) = Latency).
+      { unfold begin. rewrite (pos_delays_latency c1 Hpos).
+        replace (1 <? maxa c1)%nat with true by (symmetry; apply Nat.ltb_lt; lia). reflexivity. }
+      rewrite Pb. apply poll_latency_irrel; try assumption;
+        unfold begin; rewrite (pos_delays_latency c1 Hpos);
+        replace (1 <? maxa c1)%nat with true by (symmetry; apply Nat.ltb_lt; lia);
+        cbn [errs queue sp]; rewrite ?E3; cbn [length]; lia.
+    - destruct (c_lat _ _ _ _ _ _ B P) as (Le & _).
+      pose proof (dlog_len _ _ _ _ _ _ B) as D1. pose proof (s_cnt _ _ _ _ _ _ B) as D2.
+      assert (D3 : length (dlog x) = (length (cons x) + length (queue x))%nat).
+      { rewrite <- app_length, <- (c_log _ _ _ _ _ _ B), map_length. reflexivity. }
+      apply poll_latency_irrel; try assumption; lia. }
+  unfold poll_call. rewrite PB. reflexivity.
+Qed.
+
+Lemma advance_call_irrel c1 c2 now t1 x :
+  (sp x < maxa c1)%nat -> (sp x < maxa c2)%nat -> advance_call c1 now t1 x = advance_call c2 now t1 x.
+Proof.
+  intros H1 H2. unfold advance_call, timer_fires.
+  replace (sp x <? maxa c1)%nat with true by (symmetry; apply Nat.ltb_lt; lia).
+  replace (sp x <? maxa c2)%nat with true by (symmetry; apply Nat.ltb_lt; lia). reflexivity.
+Qed.
+
+Lemma step_irrel c1 c2 s1 s2 e : dcfg c1 = dcfg c2 -> pos_delays c1 -> (1 <= maxa c1)%nat ->
+  st_eq s1 s2 -> Inv c1 s1 ->
+  (forall j, (length (launch (calls s1 j)) + 2 < maxa c1)%nat /\ (length (launch (calls s1 j)) + 2 < maxa c2)%nat) ->
+  st_eq (fst (step c1 s1 e)) (fst (step c2 s2 e)) /\ snd (step c1 s1 e) = snd (step c2 s2 e).
+Proof.
+  intros E Hpos Hm [Hn Hc] H Hb. unfold step. rewrite <- Hn.
+  assert (Hu : forall i (y : call) j, upd (calls s1) i y j = upd (calls s2) i y j).
+  { intros i y j. unfold upd. destruct (Nat.eqb j i); [reflexivity|apply Hc]. }
+  destruct e as [i|i|d|i n o|i k|i k]; try rewrite <- (Hc i).
+  - destruct (Hb i) as [B1 B2].
+    rewrite <- (poll_call_irrel c1 c2 i (now s1) (calls s1 i) E Hpos (H i) B1 B2).
+    destruct (poll_call c1 i (now s1) (calls s1 i)) as [[x r0] v0]. cbn [fst snd now calls].
+    split; [split; [reflexivity|apply Hu]|reflexivity].
+  - cbn [fst snd now calls]. split; [split; [reflexivity|apply Hu]|reflexivity].
+  - cbv zeta. cbn [fst snd now calls]. split; [split; [reflexivity|]|reflexivity].
+    intros j. cbn [calls]. rewrite <- (Hc j). destruct (Hb j) as [B1 B2]. destruct (H j) as (B & _).
+    pose proof (a_len _ _ _ _ _ _ B) as L. apply advance_call_irrel; lia.
+  - cbn [fst snd now calls]. split; [split; [reflexivity|apply Hu]|reflexivity].
+  - cbn [fst snd now calls]. split; [split; [reflexivity|apply Hu]|reflexivity].
+  - cbn [fst snd now calls]. split; [split; [reflexivity|apply Hu]|reflexivity].
+Qed.
+
+Lemma fold_left_ext_in {A B} (f g : A -> B -> A) l : (forall a b, f a b = g a b) ->
+  forall a, fold_left f l a = fold_left g l a.
+Proof. intros H. induction l as [|b l IH]; intros a; cbn; [reflexivity|]. rewrite H. apply IH. Qed.
+
+Lemma obs_irrel s1 s2 s1' s2' total : st_eq s1 s2 -> st_eq s1' s2' ->
+  new_starts s1 s1' total = new_starts s2 s2' total /\ new_launches s1 s1' total = new_launches s2 s2' total /\
+  wake_mask s1' total = wake_mask s2' total /\ inflight s1' total = inflight s2' total /\ now s1' = now s2'.
+Proof.
+  intros [_ Hc] [Hn' Hc']. unfold new_starts, new_launches, wake_mask, inflight.
+  repeat split; try exact Hn'; apply fold_left_ext_in; intros a j; rewrite ?(Hc j), ?(Hc' j); reflexivity.
+Qed.
+
+(* the trace of a run does not depend on max_hedged_attempts as long as it exceeds the number
+   of events + 1 (positive delays): running a script whose maximum is larger with
+   (number of events + 2) -- as cfg_of does -- gives the trace of the configured maximum *)
+Lemma run_evs_maxa_irrelevant c1 c2 total evs : dcfg c1 = dcfg c2 -> gated c1 = gated c2 -> pos_delays c1 ->
+  (length evs + 2 <= maxa c1)%nat -> (length evs + 2 <= maxa c2)%nat ->
+  run_evs c1 total (init c1) evs = run_evs c2 total (init c2) evs.
+Proof.
+  intros E G Hpos M1 M2.
+  assert (Hm : (1 <= maxa c1)%nat) by lia.
+  assert (K : forall evs s1 s2 n, st_eq s1 s2 -> Inv c1 s1 ->
+     (forall j, (length (launch (calls s1 j)) <= n)%nat) ->
+     (n + length evs + 2 <= maxa c1)%nat -> (n + length evs + 2 <= maxa c2)%nat ->
+     run_evs c1 total s1 evs = run_evs c2 total s2 evs).
+  { clear evs M1 M2. induction evs as [|e t IH]; intros s1 s2 n Hs H Hl N1 N2; cbn [run_evs]; [reflexivity|].
+    cbn [length] in N1, N2.
+    destruct (step_irrel c1 c2 s1 s2 e E Hpos Hm Hs H) as [Hs' Ho].
+    { intros j. specialize (Hl j). lia. }
+    pose proof (inv_step c1 s1 e Hm H) as H'.
+    assert (Hl' : forall j, (length (launch (calls (step_st c1 s1 e) j)) <= S n)%nat).
+    { intros j. pose proof (step_one_launch c1 s1 e j Hm Hpos H). specialize (Hl j). lia. }
+    unfold step_st in H', Hl'.
+    destruct (step c1 s1 e) as [s1' o1]. destruct (step c2 s2 e) as [s2' o2]. cbn [fst snd] in *.
+    subst o2. destruct (obs_irrel s1 s2 s1' s2' total Hs Hs') as (O1 & O2 & O3 & O4 & O5).
+    rewrite O1, O2, O3, O4, O5. f_equal.
+    apply (IH s1' s2' (S n)); try assumption; lia. }
+  apply (K evs (init c1) (init c2) 0%nat); try lia.
+  - split; [reflexivity|]. intros j. cbn. unfold init_call. rewrite G. reflexivity.
+  - apply inv_init.
+  - intros j. cbn. lia.
+Qed.
+
 (* the only hypothesis of the statements, 1 <= max_hedged_attempts, holds for the
    configuration of every script (the builder stores n.max(1)) *)
 Lemma cfg_of_maxa sc : (1 <= maxa (cfg_of sc))%nat.
-Proof. unfold cfg_of. cbn [maxa]. apply Nat.le_max_l. Qed.
+Proof.
+  unfold cfg_of. cbn [maxa].
+  match goal with |- context [if ?b then _ else _] => destruct b eqn:B end; [|apply Nat.le_max_l].
+  apply andb_true_iff in B. destruct B as [B _]. apply Z.ltb_lt in B. lia.
+Qed.
 
 (* ================= non-vacuity ================= *)
 Definition cfg_fixed10 : cfg := {| maxa := 2; dcfg := Fixed 10; gated := false |}.
